@@ -12,6 +12,68 @@ from .env import Traph, TraphException
 from .rules import RULES
 from .codec import B, enc, dec
 
+# ---------------------------------------------------------------------------------------------------------------
+# A request that never returns cannot be judged by any oracle.  Instead of a wall-clock timeout (never a verdict), every
+# call into the library gets a deterministic BUDGET of storage operations (block reads + writes); histories here need
+# 10^2..10^6 of them per public call, the budget is 10^7 per call (reset at the entry of every public Traph method).  Exceeding it raises RunawayRequest from inside the storage
+# call, which surfaces as an exception of the request (a violation of the property being checked, clause 'exception').
+BUDGET = [0]
+LIMIT = 10000000
+
+
+class RunawayRequest(Exception):
+    pass
+
+
+def reset_budget():
+    BUDGET[0] = 0
+
+
+def _install_budget():
+    from traph.storage.file import FileStorage
+    from traph.storage.memory import MemoryStorage
+    for cls in (FileStorage, MemoryStorage):
+        for name in ("read", "write"):
+            orig = getattr(cls, name)
+            if getattr(orig, "_tv_budget", False):
+                continue
+
+            def make(orig):
+                def f(self, *a, **k):
+                    BUDGET[0] += 1
+                    if BUDGET[0] > LIMIT:
+                        BUDGET[0] = 0
+                        raise RunawayRequest("the request issued more than %d storage operations: it does not terminate" % LIMIT)
+                    return orig(self, *a, **k)
+                f._tv_budget = True
+                return f
+            setattr(cls, name, make(orig))
+
+
+def _install_resets():
+    """the budget is per public API call: every public method of Traph resets it on entry"""
+    import functools
+    from .env import Traph
+    for name in dir(Traph):
+        if name.startswith("_"):
+            continue
+        orig = getattr(Traph, name)
+        if not callable(orig) or getattr(orig, "_tv_reset", False):
+            continue
+
+        def make(orig):
+            @functools.wraps(orig)
+            def f(*a, **k):
+                BUDGET[0] = 0
+                return orig(*a, **k)
+            f._tv_reset = True
+            return f
+        setattr(Traph, name, make(orig))
+
+
+_install_budget()
+_install_resets()
+
 WRITE_KINDS = ("page", "pages", "links", "batch", "create", "delete", "addprefix", "rmprefix", "move",
                "rule", "unrule", "reopen", "clear")
 
@@ -137,6 +199,7 @@ class Index(object):
     def apply(self, op):
         kind = op[0]
         t = self.traph
+        reset_budget()
         try:
             if kind == "page":
                 return _report(t.add_page(op[1], crawled=op[2]))
